@@ -531,6 +531,31 @@ class Interp:
                     st.env[key] = None
                     outs = self._throwing_calls(body, st, depth, fn)
                     return outs + [(st, ("next",))]
+        # (c) a loop whose body only *reads* the stacks: every normally completing iteration leaves every depth
+        #     where it was, so any number of iterations has net effect 0; the needs of one iteration are the
+        #     needs of all of them; exceptional exits of the body are exits of the loop
+        probe = st.copy()
+        self._havoc_assigned(n.get("body"), probe)
+        before = dict(probe.depth)
+        res = self.exec(n.get("body"), probe, depth, fn)
+        ok = True
+        outs = []
+        for s, fl in res:
+            if fl[0] in ("next", "continue", "break"):
+                if any(s.d(k2) != before.get(k2, Lin(0)) for k2 in set(list(s.depth) + list(before))):
+                    ok = False
+                    break
+                for k2, v in s.needs.items():
+                    for x in v:
+                        self._add_req(st, k2, x, idx=k2.endswith("!idx"))
+            elif fl[0] == "throw":
+                outs.append((s, fl))
+            else:
+                ok = False      # return from inside the loop: not handled here
+                break
+        if ok and not any(self._touches_stacks(p2) for p2 in (n.get("c"), n.get("inc")) if p2 is not None):
+            self._havoc_assigned(n.get("body"), st)
+            return outs + [(st, ("next",))]
         raise Unsupported("loop over operand stacks not matching a known idiom in %s (line %s)" %
                           (fn["q"], n.get("l")))
 
